@@ -625,13 +625,16 @@ def run(prog) -> int:
 
     total = 0
     for m in prog.modules.values():
+        changed = 0
         for node in ast.walk(m.tree):
             if isinstance(node, (ast.FunctionDef, ast.AsyncFunctionDef)):
-                split_tuple_assignments(node)
-                total += substitute_function(node)
+                changed += split_tuple_assignments(node)
+                changed += substitute_function(node)
                 if sink_attribute_targets(node):
-                    total += substitute_function(node)
+                    changed += 1 + substitute_function(node)
                 if fuse_comprehension_loops(node):
-                    total += substitute_function(node)
-        relink(m)
+                    changed += 1 + substitute_function(node)
+        total += changed
+        if changed:
+            relink(m)
     return total
